@@ -195,6 +195,38 @@ type ServerMessage struct {
 	Dialout *DialoutInternalClientMessage `json:"dialout,omitempty"`
 }
 
+// CheckValid checks that the members required by the type of the message
+// are present. Messages created locally are valid by construction, so this
+// only needs to be called for messages received from other servers.
+func (r *ServerMessage) CheckValid() error {
+	var valid bool
+	switch r.Type {
+	case "welcome":
+		valid = r.Welcome != nil
+	case "hello":
+		valid = r.Hello != nil
+	case "error":
+		valid = r.Error != nil
+	case "room":
+		valid = r.Room != nil
+	case "message":
+		valid = r.Message != nil
+	case "control":
+		valid = r.Control != nil
+	case "event":
+		if r.Event == nil {
+			return errors.New("event missing")
+		}
+		return r.Event.CheckValid()
+	default:
+		valid = true
+	}
+	if !valid {
+		return fmt.Errorf("%s missing", r.Type)
+	}
+	return nil
+}
+
 func (r *ServerMessage) CloseAfterSend(session Session) bool {
 	if r.Type == "bye" {
 		return true
@@ -1067,6 +1099,43 @@ type EventServerMessage struct {
 
 	// Used for target "message"
 	Message *RoomEventMessage `json:"message,omitempty"`
+}
+
+func (m *EventServerMessage) CheckValid() error {
+	var valid bool
+	switch m.Target + "/" + m.Type {
+	case "participants/update":
+		if valid = m.Update != nil; valid {
+			for _, users := range [][]map[string]interface{}{m.Update.Users, m.Update.Changed} {
+				for _, u := range users {
+					if _, ok := u["sessionId"].(string); !ok {
+						return errors.New("user without sessionId")
+					}
+				}
+			}
+		}
+	case "roomlist/update":
+		valid = m.Update != nil
+	case "participants/flags":
+		valid = m.Flags != nil
+	case "participants/message", "room/message":
+		valid = m.Message != nil
+	case "roomlist/invite":
+		valid = m.Invite != nil
+	case "roomlist/disinvite":
+		valid = m.Disinvite != nil
+	case "room/join":
+		valid = true
+		for _, entry := range m.Join {
+			valid = valid && entry != nil
+		}
+	default:
+		valid = true
+	}
+	if !valid {
+		return fmt.Errorf("%s missing for %s", m.Type, m.Target)
+	}
+	return nil
 }
 
 func (m *EventServerMessage) String() string {
